@@ -13,7 +13,7 @@ NAMESPACE = 'Props.C10'
 LEAN_CONE = ['PncModel.Cal', 'PncModel.TimeDec', 'PncModel.Arr', 'PncModel.Ioapi', 'PncProofs.IoapiLemmas', 'PncProofs.C10']
 LEMMA_FILES = ['PncProofs/IoapiLemmas.lean']
 REQUIRED_THEOREMS = ['coherent_updatemeta', 'coherent_step', 'coherent_run', 'zero_listed_counterexample']
-RULE = ('IOAPI files from five sources (from_arrays gridded/boundary, from_arrays plus an unlisted 2-D variable, '
+RULE = ('IOAPI files from five sources (variable names of 2 to 16 characters; from_arrays gridded/boundary, from_arrays plus an unlisted 2-D variable, '
         'saved to disk and reopened with the ioapi reader, GRIDDESC text gridded/boundary) x sequences of 1-4 '
         'operations (copy, sliceDimensions with int / unit and strided slice / index-list windows on 1-2 dimensions, subsetVariables, renameVariable, '
         'applyAlongDimensions with reducers and length-changing callables, eval incl. 17-character and existing '
@@ -46,7 +46,8 @@ def _src(rng):
     sd, st = rng.choice(STARTS)
     return dict(kind=kind, nt=rng.randint(1, 4), nl=rng.randint(1, 3), nr=rng.randint(1, 3), nc=rng.randint(1, 3),
                 nv=rng.randint(1, 3), sdate=sd, stime=st, tstep=rng.choice([10000, 10000, 3000, 240000, 20000]),
-                lv=sorted(rng.sample(range(0, 65), 4), reverse=True), withcf=rng.random() < 0.3)
+                lv=sorted(rng.sample(range(0, 65), 4), reverse=True), withcf=rng.random() < 0.3,
+                name16=rng.random() < 0.25)
 
 
 def _recipe(rng):
@@ -75,11 +76,12 @@ def build(src):
         return f, None
     bnd = kind == 'arrays_bnd'
     kw = {}
+    pad = (lambda n: n.ljust(16, 'x')) if src.get('name16') else (lambda n: n)
     for i in range(src['nv']):
         if bnd:
-            kw['B%d' % i] = np.arange(nt * nl * (2 * nr + 2 * nc + 4), dtype='f').reshape(nt, nl, -1) + 1000 * i
+            kw[pad('B%d' % i)] = np.arange(nt * nl * (2 * nr + 2 * nc + 4), dtype='f').reshape(nt, nl, -1) + 1000 * i
         else:
-            kw['A%d' % i] = np.arange(nt * nl * nr * nc, dtype='f').reshape(nt, nl, nr, nc) + 1000 * i
+            kw[pad('A%d' % i)] = np.arange(nt * nl * nr * nc, dtype='f').reshape(nt, nl, nr, nc) + 1000 * i
     fa = dict(SDATE=src['sdate'], STIME=src['stime'], TSTEP=src['tstep'], VGLVLS=vg, VGTOP=5000., XORIG=-12000.,
               YORIG=5000., XCELL=1000., YCELL=500., NCOLS=nc, NROWS=nr)
     if bnd:
@@ -227,7 +229,7 @@ def resolve(recipe, f):
         if not data:
             return ['copy']
         o = data[r[0] % len(data)]
-        return ['rename', o, [o + 'R', 'RENAMED', 'Y' * 17][r[1] % 3]]
+        return ['rename', o, [(o + 'R')[-16:], 'RENAMED', 'Y' * 17, 'R234567890123456'][r[1] % 4]]
     if k == 'apply':
         ds = sorted(dims)
         return ['apply', ds[r[0] % len(ds)], ['mean', 'min', 'max', 'sum', 'id', 'first2', 'rev'][r[1] % 7]]
